@@ -678,7 +678,7 @@ pub fn check_quads(v: &QuadVal, m: &QuadModel, plan_seed: u64, o: QuadOpts, ctx:
                 ensure!(it.next().is_none(), "{who}: {name} yields an item after the end");
             }
         }
-        if n <= 60_000 {
+        if n <= 6_000 || (n <= 60_000 && plan_seed % 8 == 0) {
             v.check_iter_adapters(m, plan_seed ^ 5, ctx)?;
         }
     }
